@@ -196,7 +196,7 @@ class DnsRecordDnskey(ParsableBase, Serializable):
             raise InvalidValue(parser['algorithm'], cls, 'algorithm')
         try:
             public_key = cls.parse_key(parser['key'], parser['algorithm'])
-        except (ValueError, NotImplementedError) as e:  # key material that is not a key of that algorithm
+        except (ValueError, OverflowError, NotImplementedError) as e:  # not a key of that algorithm
             six.raise_from(InvalidValue(bytes(parser['key']), cls, 'key'), e)
 
         return cls(
